@@ -768,6 +768,19 @@ func (g *G) genGEP(c *cur) {
 	if len(ps) == 0 {
 		return
 	}
+	// two times out of three prefer a base whose element type can be stepped into
+	if g.chance("gepaggbase", 2, 3) {
+		var agg []*am.Value
+		for _, v := range ps {
+			et := v.Type().Scalar().Elem
+			if _, _, isStruct := g.body(et); isStruct || et.K == am.Array || et.K == am.Vec {
+				agg = append(agg, v)
+			}
+		}
+		if len(agg) > 0 {
+			ps = agg
+		}
+	}
 	base := ps[g.intn("gepbase", len(ps))]
 	bt := base.Type()
 	elemT := bt.Scalar().Elem
@@ -798,15 +811,28 @@ func (g *G) genGEP(c *cur) {
 		}
 		if structStep {
 			f := g.intn("field", nfields)
+			g.feat("gep/struct-step")
 			cst := &am.Const{K: am.CInt, T: am.I32, Int: big.NewInt(int64(f))}
 			gi.HasVal, gi.Val = true, int64(f)
-			if vlen != 0 && !scal && g.chance("splatidx", 1, 3) {
+			forceSplat := false
+			if vlen == 0 && g.chance("structvecidx", 1, 12) && !g.off("gep-vector-index") {
+				// a splat vector as struct index turns a scalar gep into a vector of pointers
+				vlen = []uint64{2, 4}[g.intn("nvl", 2)]
+				forceSplat = true
+				g.feat("gep/vector-struct-index-on-scalar-base")
+			}
+			if vlen != 0 && !scal && (forceSplat || g.chance("splatidx", 1, 3)) {
 				vc := &am.Const{K: am.CVector, T: am.V(vlen, am.I32)}
 				for j := uint64(0); j < vlen; j++ {
 					vc.Elems = append(vc.Elems, cst)
 				}
 				cst = vc
 				gi.VecLen = vlen
+			}
+			if f == 0 && g.chance("zeroidx", 1, 3) {
+				// field 0 spelled zeroinitializer (scalar or vector)
+				cst = &am.Const{K: am.CZero, T: cst.T}
+				g.feat("gep/struct-index-zeroinitializer")
 			}
 			iv = &am.Value{K: am.VConst, C: cst}
 			fs, _, _ := g.body(t)
